@@ -613,7 +613,7 @@ def q2rpy(q: np.ndarray, in_deg: bool = False) -> np.ndarray:
     if q.shape[-1] != 4:
         return None
     roll = np.arctan2(2.0*(q[0]*q[1] + q[2]*q[3]), 1.0 - 2.0*(q[1]**2 + q[2]**2))
-    pitch = np.arcsin(2.0*(q[0]*q[2] - q[3]*q[1]))
+    pitch = np.arcsin(np.clip(2.0*(q[0]*q[2] - q[3]*q[1]), -1.0, 1.0))
     yaw = np.arctan2(2.0*(q[0]*q[3] + q[1]*q[2]), 1.0 - 2.0*(q[2]**2 + q[3]**2))
     angles = np.array([roll, pitch, yaw])
     if in_deg:
@@ -679,7 +679,7 @@ def ecompass(a: np.ndarray, m: np.ndarray, frame: str = 'ENU', representation: s
         return chiaverini(R)
     if representation.lower() == 'rpy':
         phi = np.arctan2(R[1, 2], R[2, 2])    # Roll Angle
-        theta = -np.arcsin(R[0, 2])           # Pitch Angle
+        theta = -np.arcsin(np.clip(R[0, 2], -1.0, 1.0))   # Pitch Angle
         psi = np.arctan2(R[0, 1], R[0, 0])    # Yaw Angle
         return np.array([phi, theta, psi])
     if representation.lower() == 'axisangle':
